@@ -499,6 +499,19 @@ deriving DecidableEq, Repr
 
 def defCli : CliConf := { name := [], type := 0, secret := [], dup := 0 }
 
+/-- CHAP-Challenge completion: a request with CHAP-Password and no CHAP-Challenge gains a CHAP-Challenge holding the client's
+    Request Authenticator (which is what the CHAP-Password was computed from) -/
+def chapComplete (as3 : List Tlv) (auth : Bytes) : List Tlv :=
+  if as3.any (·.t = 3) ∧ !(as3.any (·.t = 60)) then as3 ++ [{ t := 60, v := auth }] else as3
+
+/-- what `radsrv` does to the attributes after the password was re-encrypted and the server's rewriteOut was applied (`as6`):
+    Message-Authenticator to the front of an Access-Request, AddTTL when the request carried no TTL -/
+def outAttrs (opts : Options) (sc : SrvConf) (code : UInt8) (ttlres : Int) (as6 : List Tlv) : List Tlv :=
+  let as7 := if code = 1 then ensureMsgAuthFront as6 else as6
+  if ttlres = -1 ∧ (opts.addttl ≠ 0 ∨ sc.addttl ≠ 0) then
+    addttlattr opts.ttlType (if sc.addttl ≠ 0 then sc.addttl else opts.addttl) as7
+  else as7
+
 /-- the last part of `radsrv`: a server was chosen; loop prevention, CHAP-Challenge completion, the new
     Request Authenticator, User-Password re-encryption, the server's rewrite-out, Message-Authenticator,
     TTL, and `sendrq` -/
@@ -509,7 +522,7 @@ def radsrvForward (w : World) (o : Nat) (cc : CliConf) (m0 : Msg) (as3 : List Tl
   if loopPrevents w.opts cc s.conf then exit w
   else
     -- CHAP-Challenge completion
-    let as4 := if as3.any (·.t = 3) ∧ !(as3.any (·.t = 60)) then as3 ++ [{ t := 60, v := m0.auth }] else as3
+    let as4 := chapComplete as3 m0.auth
     -- new Request Authenticator
     let (w, newauth) := if m0.code = 4 then (w, zeros 16) else takeRnd w 16
     -- User-Password
@@ -528,10 +541,7 @@ def radsrvForward (w : World) (o : Nat) (cc : CliConf) (m0 : Msg) (as3 : List Tl
       if s.conf.rwOut.isSome ∧ !rout.ok then rmclrqexit w
       else
         let as6 := if s.conf.rwOut.isSome then rout.attrs else as5
-        let as7 := if m0.code = 1 then ensureMsgAuthFront as6 else as6
-        let as8 := if ttlres = -1 ∧ (w.opts.addttl ≠ 0 ∨ s.conf.addttl ≠ 0) then
-            addttlattr w.opts.ttlType (if s.conf.addttl ≠ 0 then s.conf.addttl else w.opts.addttl) as7
-          else as7
+        let as8 := outAttrs w.opts s.conf m0.code ttlres as6
         let w := updRq w o fun r => { r with msg := some { m0 with attrs := as8, auth := newauth }, to := some si }
         sendrq w o
 
